@@ -130,10 +130,10 @@ theorem pickResponseMarshaler_eq (r : Registry) (acc : List Bytes) :
 
 theorem bind_ok_negotiated (r : Registry) (pm : List (Option Bytes)) (acc : List Bytes) (cs ss : Bool) (b : Bound)
     (h : bind r pm acc cs ss = .ok b) :
-    negotiatedReq r pm = some b.req ∧ negotiatedResp r pm acc = some b.resp := by
+    negotiatedReq r pm = some b.req ∧ negotiatedResp r pm acc = some b.resp ∧ b.sse = negotiatedSSE r acc := by
   unfold bind at h
   rw [pickRequestMarshaler_eq] at h
-  unfold negotiatedResp
+  unfold negotiatedResp negotiatedSSE
   rw [← pickResponseMarshaler_eq]
   cases hq : negotiatedReq r pm with
   | none => simp [hq] at h
@@ -178,7 +178,7 @@ def SuccessShape (sc : Scenario) (env : Env) (mime : Bytes) (sse : Bool) (r : Re
 theorem serveStream_ind (sc : Scenario) (env : Env) (t : RespTranscoder) (sse : Bool) (P : Resp → Prop)
     (hrpc : sc.rpc = .serverStream)
     (hfail : ∀ o g e h, o.bound = true → (g = true → sc.gone = true) → P (failResp o g (some t) e h))
-    (hsucc : ∀ r : Resp, SuccessShape sc env t.mime sse r → P r) :
+    (hsucc : ∀ r : Resp, SuccessShape sc env t.msgType sse r → P r) :
     P (serveStream sc env t sse) := by
   unfold serveStream
   repeat' split
@@ -194,7 +194,7 @@ theorem serveStream_ind (sc : Scenario) (env : Env) (t : RespTranscoder) (sse : 
 theorem serveUnary_ind (sc : Scenario) (env : Env) (t : RespTranscoder) (sse : Bool) (P : Resp → Prop)
     (hrpc : sc.rpc ≠ .serverStream)
     (hfail : ∀ o g e h, o.bound = true → (g = true → sc.gone = true) → P (failResp o g (some t) e h))
-    (hsucc : ∀ r : Resp, SuccessShape sc env t.mime sse r → P r) :
+    (hsucc : ∀ r : Resp, SuccessShape sc env t.msgType sse r → P r) :
     P (serveUnary sc env t) := by
   unfold serveUnary
   repeat' split
@@ -207,7 +207,7 @@ theorem serveUnary_ind (sc : Scenario) (env : Env) (t : RespTranscoder) (sse : B
 
 theorem serveForward_ind (sc : Scenario) (env : Env) (t : RespTranscoder) (sse : Bool) (P : Resp → Prop)
     (hfail : ∀ o g e h, o.bound = true → (g = true → sc.gone = true) → P (failResp o g (some t) e h))
-    (hsucc : ∀ r : Resp, SuccessShape sc env t.mime sse r → P r) :
+    (hsucc : ∀ r : Resp, SuccessShape sc env t.msgType sse r → P r) :
     P (serveForward sc env t sse) := by
   unfold serveForward
   repeat' split
@@ -221,7 +221,7 @@ theorem serveForward_ind (sc : Scenario) (env : Env) (t : RespTranscoder) (sse :
 theorem serveBound_ind (sc : Scenario) (env : Env) (b : Bound) (P : Resp → Prop)
     (hfail : ∀ o g t e h, o.bound = true → (g = true → sc.gone = true) → t.status = env.stEnc → t.mime = b.resp.mime →
       P (failResp o g (some t) e h))
-    (hsucc : ∀ r : Resp, SuccessShape sc env b.resp.mime b.sse r → P r) :
+    (hsucc : ∀ r : Resp, SuccessShape sc env (if b.sse then eventStream else b.resp.mime) b.sse r → P r) :
     P (serveBound sc env b) := by
   unfold serveBound
   repeat' split
@@ -244,7 +244,7 @@ theorem serve_ind (sc : Scenario) (env : Env) (P : Resp → Prop)
       o.bound = true → (g = true → sc.gone = true) → t.status = env.stEnc → t.mime = b.resp.mime →
       P (failResp o g (some t) e h))
     (hsucc : ∀ b r, bind registry env.pm sc.accept (sc.rpc == .clientStream) (sc.rpc == .serverStream) = .ok b →
-      SuccessShape sc env b.resp.mime b.sse r → P r) :
+      SuccessShape sc env (if b.sse then eventStream else b.resp.mime) b.sse r → P r) :
     P (serve sc env) := by
   unfold serve
   repeat' split
